@@ -62,6 +62,13 @@ CLAIMED["C09"] = {
     "design": "4/C09",
 }
 
+CLAIMED["C16"] = {
+    "text": "Lean theorems over the discovery model, for ancestor chains of ANY depth: nearest wins (every nearer directory has no candidate, the chosen one exactly one); two or more candidates in the nearest directory that has any is an error; not-found iff no ancestor has a candidate; candidate test ignores letter case and accepts the dot variant; the fallback climb ends only in 'ran at a level above' or an unknown-recipe error, stops at the first level that knows the recipe or lacks `set fallback`, climbs one justfile at a time; explicit --justfile disables both. Correspondence: random sample of directory chains (depth 3 quick / 4 thorough) x candidate placements x (knows, fallback) x invocation level x 5 invocation forms (plain, DIR/recipe, ../recipe, --justfile, --justfile + --working-directory) run against the binary; justfile used, cwd and error class compared with the statement and the model.",
+    "note": "Trusted: Lean kernel; Search model (tied by the differential run); the scratch directory's ancestors contain no justfile; Linux case-sensitive file system; `DIR/recipe` splitting is compared behaviourally (no Lean theorem about string splitting).",
+    "technique": "Lean 4 proof (induction over the ancestor chain) + differential against the binary on generated trees",
+    "design": "4/C16",
+}
+
 PENDING = "check not built yet in this session (see DESIGN.md build order); no claim is made"
 
 
